@@ -1,4 +1,5 @@
 import NdnProofs.Lemmas.Svs
+import NdnProofs.Lemmas.SvsBytes
 /-!
 # C18 — State-vector sync merges monotonically and announces exactly when needed
 
@@ -227,6 +228,195 @@ theorem suppression_emit_iff (selfId : Bytes) (seq0 : Nat) (evs : List Ev) :
       simp [this]
   · split <;> simp
 
+/-! ### the byte-level half: vectors as the bytes of the name component
+
+`decodeVector` is `StateVecWrapper.parse(name[-2])` (the generic decoder `Ndn.Codec.parse` of property C08 over
+the schema regenerated from the live class) followed by reading `.val.entries`; `encodeVector` is what
+`express_sync_interest` puts into the name (`Ndn.Codec.encFields`); `stepBytes` is `sync_handler` on the
+bytes of the component, `stepB` / `runB` the model on histories whose received vectors are bytes. -/
+
+open Ndn.Codec in
+/-- **vector_roundtrip.** What `express_sync_interest` encodes for a vector whose node ids are well-formed names
+    and whose sequence numbers are below 2^64 is decoded by the receiving side to exactly the entries of that
+    vector, in order (instance of `C08.parse_enc_roundtrip` at the StateVecWrapper class). -/
+theorem vector_roundtrip (v : Vec) (h : WfVec v) (b : Bytes) (he : encodeVector v = .ok b) :
+    decodeVector b = some (entriesOf v) := by
+  obtain ⟨es, hv, henc⟩ := bind_ok he
+  obtain ⟨hfit, hmap⟩ := vecValues_spec v h es hv
+  have hfits : fitsFs wrapperSchema [.model [.list es]] = true := by
+    rw [wrapperSchema_eq]; simp [fitsFs, fits, hfit]
+  have hp := C08.parse_enc_roundtrip wrapperSchema _ b false wrapper_wf hfits henc
+  rw [decodeVector_some]; unfold decodeVectorE
+  rw [hp]; simp [bind, Except.bind, pure, Except.pure, entriesOfParsed, hmap]
+
+open Ndn.Codec in
+/-- **stepBytes_spec.** For **every** byte string in the vector component exactly one of three things happens:
+    it decodes and the handler does what the model does on the decoded entries; decoding raises `DecodeError`
+    or `IndexError`, which `sync_handler` catches (table regenerated from its `except` clause) — nothing
+    changes, nothing is emitted; or decoding raises `struct.error` / `ValueError` (`TypeError` is admitted by the
+    decoder's totality theorem `total_step` = `C07.parse_total` but produced by no rule), which the handler does
+    **not** catch: the exception propagates to the caller and the state is untouched. -/
+theorem stepBytes_spec (s : State) (comp : Bytes) :
+    (∃ es, decodeVector comp = some es ∧ stepBytes s comp = .ok (step s (.recv es))) ∨
+    (∃ e, decodeVectorE comp = .error e ∧ (e = .decodeError ∨ e = .indexError) ∧
+        stepBytes s comp = .ok (s, [])) ∨
+    (∃ e, decodeVectorE comp = .error e ∧ (e = .structError ∨ e = .valueError ∨ e = .typeError) ∧
+        stepBytes s comp = .error e) := by
+  cases hd : decodeVectorE comp with
+  | ok es => left; exact ⟨es, decodeVector_some.mpr hd, by simp [stepBytes, hd]⟩
+  | error e =>
+    have hp := decodeVectorE_error hd
+    have hdoc : docErr e = true :=
+      (total_step (comp.length + 1)).1 wrapperSchema false comp 0 0 _ wrapper_p (Nat.lt_succ_self _) e hp
+    right
+    cases e <;> simp [docErr] at hdoc <;>
+      simp [stepBytes, hd, caught, Gen.C18.caught, Gen.C18.catchAll, step]
+
+theorem stepBytes_decoded (s : State) (comp : Bytes) (es : List Entry) (h : decodeVector comp = some es) :
+    stepBytes s comp = .ok (step s (.recv es)) := by
+  rw [decodeVector_some] at h; simp [stepBytes, h]
+
+/-- the event of the decoded model a byte-level event stands for -/
+def decodeEv : EvB → Ev
+  | .ev e => e
+  | .raw comp => match decodeVector comp with
+    | some es => .recv es
+    | none => .undecodable
+
+/-- histories whose received vectors are bytes -/
+def runB (s : State) : List EvB → State
+  | [] => s
+  | e :: r => runB (stepB s e).1 r
+
+/-- **stepB_refines.** The handler on bytes is the model on the decoded event: same next state always; the same
+    outputs when the handler returns; and when it raises (only `struct.error` / `ValueError` / `TypeError` from
+    the decoder) the state is unchanged and the decoded model does nothing either. -/
+theorem stepB_refines (s : State) (e : EvB) :
+    (stepB s e).1 = (step s (decodeEv e)).1 ∧
+    (∀ o, (stepB s e).2 = .ok o → o = (step s (decodeEv e)).2) ∧
+    (∀ x, (stepB s e).2 = .error x →
+      (x = .structError ∨ x = .valueError ∨ x = .typeError) ∧ step s (decodeEv e) = (s, [])) := by
+  cases e with
+  | ev e => simp [stepB, decodeEv]
+  | raw comp =>
+    rcases stepBytes_spec s comp with ⟨es, h1, h2⟩ | ⟨x, h1, _, h3⟩ | ⟨x, h1, h2, h3⟩
+    · simp [stepB, decodeEv, h1, h2]
+    · have : decodeVector comp = none := decodeVector_none.mpr ⟨x, h1⟩
+      simp [stepB, decodeEv, this, h3, step]
+    · have : decodeVector comp = none := decodeVector_none.mpr ⟨x, h1⟩
+      refine ⟨by simp [stepB, decodeEv, this, h3, step], by simp [stepB, h3], ?_⟩
+      intro y hy
+      simp only [stepB, h3, Except.error.injEq] at hy
+      subst hy
+      exact ⟨h2, by simp [decodeEv, this, step]⟩
+
+theorem runB_eq_run (s : State) (evs : List EvB) : runB s evs = (run s (evs.map decodeEv)).1 := by
+  induction evs generalizing s with
+  | nil => simp [runB, run]
+  | cons e r ih => simp only [runB, List.map_cons, run]; rw [(stepB_refines s e).1]; exact ih _
+
+/-- **run_monotone_bytes.** Over any history of publications, timer expiries and *arbitrary bytes* received in the
+    vector component, no entry of the local vector ever decreases. -/
+theorem run_monotone_bytes (s : State) (evs : List EvB) (h : WF s) (k : Bytes) :
+    vget s.loc k ≤ vget (runB s evs).loc k := by
+  rw [runB_eq_run]; exact run_monotone s _ h k
+
+/-- **local_is_max_bytes.** When the bytes of the component decode to an accepted vector, the local vector after
+    the handler is the entry-wise maximum of its previous value and the vector those bytes denote. -/
+theorem local_is_max_bytes (s : State) (comp : Bytes) (es : List Entry)
+    (hd : decodeVector comp = some es) (h : accepted s es) :
+    ∃ r, stepBytes s comp = .ok r ∧ ∀ k, vget r.1.loc k = max (vget s.loc k) (vecOf es k) :=
+  ⟨_, stepBytes_decoded s comp es hd, local_is_max s es h⟩
+
+/-- **callback_iff_raised_bytes.** For every byte string on which the handler returns, the missing-data callback
+    fires iff an entry of the local vector was raised (at most once, with nothing else); in particular never for
+    bytes that do not decode. -/
+theorem callback_iff_raised_bytes (s : State) (comp : Bytes) (r : State × List Out)
+    (h : stepBytes s comp = .ok r) :
+    (r.2 = [Out.missing] ↔ ∃ k, vget s.loc k < vget r.1.loc k) ∧ (r.2 = [Out.missing] ∨ r.2 = []) := by
+  rcases stepBytes_spec s comp with ⟨es, _, h2⟩ | ⟨x, _, _, h3⟩ | ⟨x, _, _, h3⟩
+  · rw [h2] at h; cases h; exact callback_iff_raised s es
+  · rw [h3] at h; cases h; simp
+  · rw [h3] at h; cases h
+
+/-- **emits_are_local.** Whatever event makes the node emit a sync Interest, the vector it carries is the node's
+    full local vector at that moment. -/
+theorem emits_are_local (s : State) (e : Ev) (v : Vec) (h : Out.emit v ∈ (step s e).2) :
+    v = (step s e).1.loc := by
+  cases e with
+  | undecodable => simp [step] at h
+  | publish => simp only [step, List.mem_singleton, Out.emit.injEq] at h; simp [step, h]
+  | timer =>
+    simp only [step] at h ⊢
+    split at h
+    · split at h
+      · simp only [List.mem_singleton, Out.emit.injEq] at h; simp_all
+      · simp at h
+    · simp only [List.mem_singleton, Out.emit.injEq] at h; simp_all
+  | recv es =>
+    have := (callback_iff_raised s es).2
+    rcases this with h' | h' <;> rw [h'] at h <;> simp at h
+
+/-- **publish_emits_decodable.** After publishing, the bytes the node puts into its sync Interest decode — by the
+    peer's decoder — to exactly its (new) local vector: same entries in the same order, denoting the same
+    function NodeId → SeqNo. -/
+theorem publish_emits_decodable (s : State) (hwf : WF s) (hw : WfVec s.loc) (hid : WfId s.selfId)
+    (hq : s.selfSeq + 1 < 2 ^ 64) (wire : Bytes) (he : encodeVector (step s .publish).1.loc = .ok wire) :
+    (step s .publish).2 = [Out.emit (step s .publish).1.loc] ∧
+    decodeVector wire = some (entriesOf (step s .publish).1.loc) ∧
+    ∀ k, vecOf (entriesOf (step s .publish).1.loc) k = vget (step s .publish).1.loc k := by
+  have hw' : WfVec (step s .publish).1.loc := wfVec_set _ _ _ hw hid hq
+  refine ⟨rfl, vector_roundtrip _ hw' wire he, ?_⟩
+  exact vecOf_entriesOf _ (wf_step s .publish hwf).1 (fun p hp => (hw' p hp).1.ne_nil)
+
+/-- **vector_received.** Feeding the bytes a well-formed, non-empty vector `v` encodes to into a node that `v` does
+    not over-claim: the handler returns and the node's local vector becomes the entry-wise maximum of its previous
+    value and `v`. -/
+theorem vector_received (v : Vec) (hw : WfVec v) (hn : (PyDict.keys v).Nodup) (hne : v ≠ [])
+    (wire : Bytes) (he : encodeVector v = .ok wire) (b : State) (hno : vget v b.selfId ≤ b.selfSeq) :
+    ∃ r, stepBytes b wire = .ok r ∧ ∀ k, vget r.1.loc k = max (vget b.loc k) (vget v k) := by
+  have hd := vector_roundtrip v hw wire he
+  have hacc : accepted b (entriesOf v) :=
+    ⟨by cases v <;> simp_all [entriesOf], not_overclaims_entriesOf v hn _ _ hno⟩
+  obtain ⟨r, h1, h2⟩ := local_is_max_bytes b wire _ hd hacc
+  refine ⟨r, h1, fun k => ?_⟩
+  rw [h2 k, vecOf_entriesOf v hn (fun p hp => (hw p hp).1.ne_nil)]
+
+/-- **emitted_vector_is_received.** Node `a` publishes; the bytes of its sync Interest are fed to node `b` (for
+    which `a` does not claim more than `b` has produced): `b`'s handler returns and every entry of `b`'s local
+    vector is afterwards at least `a`'s (exactly the entry-wise maximum of the two). -/
+theorem emitted_vector_is_received (a b : State) (ha : WF a) (hw : WfVec a.loc) (hid : WfId a.selfId)
+    (hq : a.selfSeq + 1 < 2 ^ 64) (wire : Bytes) (he : encodeVector (step a .publish).1.loc = .ok wire)
+    (hno : vget (step a .publish).1.loc b.selfId ≤ b.selfSeq) :
+    ∃ r, stepBytes b wire = .ok r ∧
+      (∀ k, vget r.1.loc k = max (vget b.loc k) (vget (step a .publish).1.loc k)) ∧
+      (∀ k, vget (step a .publish).1.loc k ≤ vget r.1.loc k) := by
+  have hw' : WfVec (step a .publish).1.loc := wfVec_set _ _ _ hw hid hq
+  have hne : (step a .publish).1.loc ≠ [] := by
+    simp only [step]; cases a.loc <;> simp [PyDict.set]; split <;> simp
+  obtain ⟨r, h1, h2⟩ := vector_received _ hw' (wf_step a .publish ha).1 hne wire he b hno
+  exact ⟨r, h1, h2, fun k => by rw [h2 k]; omega⟩
+
+/-- **encodeVector_fails_only_oversize.** Encoding a well-formed vector succeeds, unless some Length in it does not
+    fit 64 bits (`struct.error` from `write_tl_num`; not reachable with real memory). -/
+theorem encodeVector_fails_only_oversize (v : Vec) (h : WfVec v) :
+    (∃ b, encodeVector v = .ok b) ∨ encodeVector v = .error .structError := by
+  cases he : encodeVector v with
+  | ok b => exact .inl ⟨b, rfl⟩
+  | error e => right; rw [encodeVector_os v h e he]
+
+/-- **source_tables_pinned.** What the byte-level theorems are about is what the source says: the handler calls
+    `StateVecWrapper.parse(name[-2])`, that class is a 0xc9 wrapper around repeated 0xca entries of (Name, 0xcc
+    unsigned integer), it satisfies the hypotheses of the codec theorems, and the `except` clause catches exactly
+    `DecodeError` and `IndexError` (all regenerated from the source on every run). -/
+theorem source_tables_pinned :
+    Gen.C18.parsedClass = "StateVecWrapper" ∧ Gen.C18.parsedIndex = -2 ∧
+    wrapperSchema = [.model 201 [.repeated (.model 202 [.name 7, .uint 204 none] false)] false] ∧
+    Codec.wfTop wrapperSchema = true ∧ Codec.pFs wrapperSchema = true ∧
+    (∀ e, caught e = true ↔ (e = .decodeError ∨ e = .indexError)) := by
+  refine ⟨by decide, by decide, rfl, wrapper_wf, wrapper_p, ?_⟩
+  intro e; cases e <;> decide
+
 /-! ### non-vacuity: the hypotheses are met by concrete reachable states -/
 
 /-- the F14 history: local A:5, hear {A:3} then {A:2,B:1}; the model (repaired code) does emit -/
@@ -240,5 +430,35 @@ example : accepted (init [1] 3) [(some [2], some 4)] := by
   rintro ⟨q, hm, _, _⟩; simp [init] at hm
 
 example : overclaims [1] 3 [(some [2], some 4), (some [1], some 9)] := ⟨9, by simp, by simp, by omega⟩
+
+/-! byte level: `/n0` = `07 04 08 02 6e 30` -/
+
+/-- node /n0 (seq 2) knowing /n1 at 300 emits these 25 bytes … -/
+example : encodeVector [([7, 4, 8, 2, 110, 48], 2), ([7, 4, 8, 2, 110, 49], 300)] =
+    .ok [0xc9, 0x17, 0xca, 9, 7, 4, 8, 2, 110, 48, 0xcc, 1, 2, 0xca, 10, 7, 4, 8, 2, 110, 49, 0xcc, 2, 1, 44] := by rfl
+/-- … which the peer decodes to the same two entries -/
+example : decodeVector
+    [0xc9, 0x17, 0xca, 9, 7, 4, 8, 2, 110, 48, 0xcc, 1, 2, 0xca, 10, 7, 4, 8, 2, 110, 49, 0xcc, 2, 1, 44] =
+    some [(some [7, 4, 8, 2, 110, 48], some 2), (some [7, 4, 8, 2, 110, 49], some 300)] := by rfl
+example : WfVec [([7, 4, 8, 2, 110, 48], 2), ([7, 4, 8, 2, 110, 49], 300)] := by
+  intro p hp
+  simp only [List.mem_cons, List.not_mem_nil, or_false] at hp
+  rcases hp with rfl | rfl
+  · exact ⟨⟨[[8, 2, 110, 48]], by simp, by decide, by decide, by decide⟩, by decide⟩
+  · exact ⟨⟨[[8, 2, 110, 49]], by simp, by decide, by decide, by decide⟩, by decide⟩
+/-- the three outcomes of `stepBytes_spec`: a truncated entry is an IndexError (caught, nothing happens) … -/
+example : decodeVectorE [0xc9, 3, 0xca, 1, 0xcc] = .error .indexError ∧
+    stepBytes (init [7, 4, 8, 2, 110, 48] 1) [0xc9, 3, 0xca, 1, 0xcc] = .ok (init [7, 4, 8, 2, 110, 48] 1, []) :=
+  ⟨rfl, rfl⟩
+/-- … an unknown critical element is a DecodeError (caught) … -/
+example : decodeVectorE [0xc9, 4, 0xca, 2, 0x65, 0] = .error .decodeError := rfl
+/-- … and a 3-byte sequence number is a ValueError, which the handler does not catch -/
+example : stepBytes (init [7, 4, 8, 2, 110, 48] 1) [0xc9, 7, 0xca, 5, 0xcc, 3, 0, 0, 1] = .error .valueError := rfl
+/-- … as is a sequence number cut short by the end of the component (struct.error) -/
+example : stepBytes (init [7, 4, 8, 2, 110, 48] 1) [0xc9, 5, 0xca, 3, 0xcc, 2, 1] = .error .structError := rfl
+/-- an accepted vector in bytes: /n1 at 2 raises an entry of /n0's vector -/
+example : (match stepBytes (init [7, 4, 8, 2, 110, 48] 1) [0xc9, 11, 0xca, 9, 7, 4, 8, 2, 110, 49, 0xcc, 1, 2] with
+    | .ok r => some (r.1.loc, r.2) | .error _ => none) =
+    some ([([7, 4, 8, 2, 110, 48], 1), ([7, 4, 8, 2, 110, 49], 2)], [Out.missing]) := rfl
 
 end Ndn.C18
